@@ -18,6 +18,10 @@ Mechanism A (universe export), everything decided by TLC:
    outputs of one producer, or an output next to a pipeline input) in every writable combination of access modes
    (`m[i, j]` / `m[:, j]` / `m[i, :]` / `m[:, :]` / no entry  x  `w[j]` / `w[:]` / no entry, ...); each edge has to be
    judged by ITS OWN MapSpec entry.
+   SUPPLY shapes (TypeCompat section 8): the consumer parameter under test and/or its sibling also has a default (in the
+   Python signature, PipeFunc(defaults=), update_defaults, Pipeline.update_defaults) or a bound value (bound=,
+   update_bound), over direct / element-wise / reduced / partially reduced / two-output edges: a default never cuts an
+   edge (the edge is validated as ever), a bound value cuts its own edge only.
 4. Calibration: every `assert [not] is_type_compatible(X, Y)` of tests/test_typing.py whose operands fall in the
    grammar is translated to records and sent to TLC (a generated ad-hoc module over TypeCompat); the reference must
    agree with all of them, otherwise the check is a machinery failure (exit 2).
@@ -331,7 +335,7 @@ CONSTANTS Part = "{part}" Tier = "{tier}" Shard = {shard} NShards = {n}
 INVARIANT {invs}
 """
 PAIR_INVS = "InvVerdictDomain InvReflexive InvAnyTop InvUnion InvCovariant InvTransitive Emit"
-PIPE_INVS = "InvPipeDomain InvPipeEdges InvNamed InvSib Emit"
+PIPE_INVS = "InvPipeDomain InvPipeEdges InvNamed InvSib InvSup Emit"
 
 ADHOC = """---- MODULE MC_TypeCompatAdhoc ----
 (* generated by pfverif/props/c16.py: verdicts of TypeCompat for explicitly listed pairs / pipelines *)
@@ -464,9 +468,17 @@ def userland() -> Userland:
     return _U["u"]
 
 
-def _fn(u: Userland, name: str, params: list[tuple[str, dict]], ret: dict | None, style: str):
-    """def name(p1: A1, ...) -> R  with the annotations written as source text (NoAnn = nothing written)."""
-    ps = ", ".join(p if r["k"] == "NoAnn" else f"{p}: {u.expr(r, style)}" for p, r in params)
+SUPPLIED_VALUE = 0      # the value of every default / bound value the harness attaches (annotations are not enforced)
+
+
+def _fn(u: Userland, name: str, params: list[tuple[str, dict]], ret: dict | None, style: str,
+        sig_defaults: tuple[str, ...] = ()):
+    """def name(p1: A1, ...) -> R  with the annotations written as source text (NoAnn = nothing written).
+    Parameters in `sig_defaults` get `= 0` in the signature (keyword-only then, so that any order can be written)."""
+    dflt = lambda p: f" = {SUPPLIED_VALUE!r}" if p in sig_defaults else ""  # noqa: E731
+    ps = ", ".join((p if r["k"] == "NoAnn" else f"{p}: {u.expr(r, style)}") + dflt(p) for p, r in params)
+    if sig_defaults:
+        ps = "*, " + ps
     rt = "" if ret is None or ret["k"] == "NoAnn" else f" -> {u.expr(ret, style)}"
     return u.define(f"def {name}({ps}){rt}:\n    return None\n", name, future=style == "pep604")
 
@@ -549,16 +561,36 @@ def _consumer(u: Userland, cons: dict, out: str, style: str):
     from pipefunc import PipeFunc
 
     params, scoped = [], {}
+    hows: dict[str, list[str]] = {}        # how a default / bound value is attached (TypeCompat section 8) -> parameters
     for q in cons["params"]:
         py = q["n"]
         if "." in py:                      # a scoped name: the function has the bare parameter, the scope is added
             sc, py = py.split(".", 1)
             scoped.setdefault(sc, set()).add(py)
         params.append((py, q["t"]))
-    g = PipeFunc(_fn(u, "g", params, rec("NoAnn"), style), out, mapspec=_ms_text(cons["ms"]))
+        hows.setdefault(q.get("how", "none"), []).append(py)
+    if set(hows) - {"none", "sig", "ctor", "update", "pipe", "bctor", "bupdate"}:
+        raise MachineryError(f"unknown way of attaching a value: {sorted(hows)}")
+    val = lambda how: {n: SUPPLIED_VALUE for n in hows.get(how, [])}  # noqa: E731
+    g = PipeFunc(_fn(u, "g", params, rec("NoAnn"), style, sig_defaults=tuple(hows.get("sig", ()))), out,
+                 mapspec=_ms_text(cons["ms"]), defaults=val("ctor") or None, bound=val("bctor") or None)
+    if val("update"):
+        g.update_defaults(val("update"))
+    if val("bupdate"):
+        g.update_bound(val("bupdate"))
     for sc, names in scoped.items():
         g.update_scope(sc, inputs=names)
-    return g
+    return g                               # how = "pipe" is applied by construct (it needs the pipeline)
+
+
+def _supply_realised(g, cons: dict) -> str | None:
+    """The consumer the code holds has the defaults / bound values the specification wrote (None = yes)."""
+    for q in cons["params"]:
+        sup, n = q.get("sup", "none"), q["n"]
+        if (n in g.bound) != (sup == "bound") or (n in g.defaults) != (sup in ("sig", "default")) \
+                or (n in g._defaults) != (sup == "default"):
+            return f"parameter {n}: sup={sup} how={q.get('how')} but bound={g.bound} defaults={g.defaults}"
+    return None
 
 
 def build_named(u: Userland, desc: dict, style: str) -> list:
@@ -572,14 +604,15 @@ def build_named(u: Userland, desc: dict, style: str) -> list:
     outs = cons["ms"]["outs"]
     g = _consumer(u, cons, outs[0]["n"] if outs else "z", style)
     produced = [n for f in fs for n in (f.output_name if isinstance(f.output_name, tuple) else (f.output_name,))]
-    connected = [n for n in g.parameters if n in produced]
+    cut = {q["n"] for q in cons["params"] if q.get("sup") == "bound"}       # no edge into a bound parameter (section 8)
+    connected = [n for n in g.parameters if n in produced and n not in cut]
     realised = sorted(connected) == sorted(e["n"] for e in desc["edges"]) if net else len(connected) == len(desc["edges"])
     if not realised or [q["n"] for q in cons["params"]] != list(g.parameters) or len(set(produced)) != len(produced):
         raise MachineryError(f"named description not realised: outputs {produced}, parameters {g.parameters}, "
                              f"{len(desc['edges'])} edges expected")
     if net:     # the MapSpecs the code holds are the ones the specification wrote
         for f, prod in zip(fs, prods):
-            if str(f.mapspec) != _ms_text(prod["ms"]):
+            if (str(f.mapspec) if f.mapspec else None) != _ms_text(prod["ms"]):
                 raise MachineryError(f"producer MapSpec {f.mapspec} is not {_ms_text(prod['ms'])}")
         if (str(g.mapspec) if g.mapspec else None) != _ms_text(cons["ms"]):
             raise MachineryError(f"consumer MapSpec {g.mapspec} is not {_ms_text(cons['ms'])}")
@@ -597,9 +630,19 @@ def construct(desc: dict, style: str = "typing") -> tuple[str, str]:
         funcs = build_functions(u, desc["shape"], desc["edges"], style)
     if (desc.get("p", 0) + desc.get("c", 0)) % 2:      # listing order must not matter
         funcs = funcs[::-1]
+    cons = desc.get("cons", {"params": []})
+    via_pipeline = {q["n"]: SUPPLIED_VALUE for q in cons["params"] if q.get("how") == "pipe"}
     buf = io.StringIO()
     with warnings.catch_warnings(record=True) as w, contextlib.redirect_stdout(buf):
         warnings.simplefilter("always")
+        if via_pipeline:        # Pipeline.update_defaults on an unvalidated pipeline; its functions are then used
+            p0 = Pipeline(funcs, validate_type_annotations=False)
+            p0.update_defaults(via_pipeline)
+            funcs = list(p0.functions)
+        if any("sup" in q for q in cons["params"]):
+            wrong = _supply_realised(next(f for f in funcs if f.__name__ == "g"), cons)
+            if wrong:
+                raise MachineryError(f"supply not realised ({desc['shape']}): {wrong}")
         try:
             Pipeline(funcs, validate_type_annotations=desc["validate"])
             out, msg = "accept", ""
@@ -634,15 +677,21 @@ def pipe_sig(desc: dict, style: str, observed: str, expect: str) -> dict:
             src = rec("array", src)
         for k, v in features(src, e["c"]).items():
             f[k] = f.get(k, False) or v
-        if (desc["shape"] in ("multi2", "multi2x") or desc["shape"].startswith(("ren_", "sib2_"))) and e["p"]["k"] == "None":  # tuple[None, int]
+        if (desc["shape"] in ("multi2", "multi2x") or desc["shape"].startswith(("ren_", "sib2_", "supm_"))) and e["p"]["k"] == "None":  # tuple[None, int]
             f["none_arg_of_builtin_generic"] = True
     reduced_annotated = any(e["via"] in ("reduce", "preduce") and e["p"]["k"] == "ann" for e in desc["edges"])
+    # supply shapes (TypeCompat section 8): what else can give the parameter under test / the other one a value, and how
+    sup = [(q.get("sup", "none"), q.get("how", "none")) for q in desc["cons"]["params"]] if "cons" in desc else []
+    supplied = desc["shape"].startswith("sup") and len(sup) == 2
     return {"check": "pipeline", "style": style, "shape": desc["shape"], "validate": desc["validate"],
             "observed": observed, "required": expect, "reduced_producer_annotated": reduced_annotated,
             "renamed_outputs": desc["shape"].startswith("ren_"), "consumer_own_mapspec": desc["shape"].endswith("_other2"),
             # sibling shapes: the consumer's MapSpec has several entries; how each produced input is taken
             "consumer_array_inputs": len(desc["cons"]["ms"]["ins"]) if "prods" in desc else -1,
             "vias": "+".join(sorted(e["via"] for e in desc["edges"])),
+            "supply_under_test": sup[0][0] if supplied else "none", "how_under_test": sup[0][1] if supplied else "none",
+            "supply_other": sup[1][0] if supplied else "none",
+            "supply_family": desc["shape"].split("_")[0] if supplied else "",
             **f}
 
 
@@ -826,16 +875,20 @@ def run(ctx: Ctx) -> None:
                 "universe (quick: depth <= 1, thorough: depth <= 2 plus six depth-3 nestings) exported by TLC from MC_TypeCompat with the verdict "
                 "yes/no/either, plus seeded random pairs of depth <= 3 decided by TLC through a generated ad-hoc module; "
                 "non-trivial = the two annotations differ, both exist and the required one is not Any. "
-                "pipeline case = (shape, annotations on its edges, validate flag, style) for 63 shapes of 2-3 functions (12 with "
+                "pipeline case = (shape, annotations on its edges, validate flag, style) for 156 shapes of 2-3 functions (12 with "
                 "listed edges, 8 NAMED ones whose edges TLC derives from declared output names + rename steps [renames=, "
                 "update_renames, update_scope, swap] and from the user-written MapSpecs of both functions, 43 SIBLING ones "
                 "whose consumer takes two array inputs -- outputs of two mapped producers, two outputs of one producer, an "
                 "output next to a pipeline input -- in every writable combination of access modes [indexed / sliced on either "
-                "axis / fully sliced / no entry], the pair under test on either input); "
+                "axis / fully sliced / no entry], the pair under test on either input; 93 SUPPLY ones whose consumer parameter "
+                "under test [7 ways: nothing / signature default / defaults= / update_defaults / Pipeline.update_defaults / "
+                "bound= / update_bound] and other parameter [nothing / defaults= / bound=] can get a value otherwise, over a "
+                "direct / element-wise / reduced / partially reduced / two-output edge); "
                 "non-trivial = validation on and some checked edge joins two different explicit annotations")
     ctx.assumptions = [
         "TLC and the record <-> source-text translation of annotations are trusted (round-trip self-test on every run)",
         "annotation objects are read back through PipeFunc.output_annotation / parameter_annotations of exec'd functions",
+        "every default / bound value the harness attaches is the int 0 (annotations are not enforced at attachment)",
         "don't-care (verdict 'either'): source TypeVar; bare generic against a parametrised one of the same origin; "
         "int/bool -> float; at pipeline level a reduced producer that is itself annotated Array[...]",
         "forward references, numpy dtypes, user generics, ABCs (Sequence/Mapping) are outside the grammar",
@@ -935,8 +988,29 @@ def run(ctx: Ctx) -> None:
                      f"victim={pipes[victim]['shape']} "
                      + "; ".join(f"{show(e['p'])} -{e['via']}-> {show(e['c'])}" for e in pipes[victim]["edges"])
                      + f" expect={pipes[victim]['expect']} reported={sorted(set(got) - set(base))}")
-    ctx.extra["sibling_shapes"] = {"shapes": len({d["shape"] for d in pipes if "prods" in d}),
-                                   "pipelines": sum(1 for d in pipes if "prods" in d)}
+    #    and on a SUPPLY shape: an incompatible edge into a parameter that has a PipeFunc-level default
+    supk = [k for k in range(len(pipes)) if pipes[k]["shape"].startswith("sup") and pipes[k]["validate"]
+            and pipes[k]["expect"] == "TypeError" and k not in set(badp)
+            and pipes[k]["cons"]["params"][0].get("sup") == "default"]
+    if supk:
+        victim = supk[len(supk) // 2]
+        lo = max(0, victim - 20)
+        window = pipes[lo: victim + 20]
+        got = check_pipes(ctx, window, corrupt=victim - lo, parallel=False)
+        base = check_pipes(ctx, window, corrupt=10**9, parallel=False)
+        q = pipes[victim]["cons"]["params"][0]
+        ctx.selftest("supply pipeline outcome corruption (one exported outcome flipped)",
+                     sorted(set(got) - set(base)) == [victim - lo],
+                     f"victim={pipes[victim]['shape']} parameter {q['n']} sup={q['sup']} how={q['how']} "
+                     + "; ".join(f"{show(e['p'])} -{e['via']}-> {show(e['c'])}" for e in pipes[victim]["edges"])
+                     + f" expect={pipes[victim]['expect']} reported={sorted(set(got) - set(base))}")
+    sup_pipes = [d for d in pipes if d["shape"].startswith("sup")]
+    ctx.extra["supply_shapes"] = {"shapes": len({d["shape"] for d in sup_pipes}), "pipelines": len(sup_pipes),
+                                  "edge_cut_by_bound": sum(1 for d in sup_pipes if d["cons"]["params"][0]["sup"] == "bound"),
+                                  "rejected_despite_default": sum(1 for d in sup_pipes if d["expect"] == "TypeError" and
+                                                                  d["cons"]["params"][0]["sup"] in ("sig", "default"))}
+    ctx.extra["sibling_shapes"] = {"shapes": len({d["shape"] for d in pipes if d["shape"].startswith("sib")}),
+                                   "pipelines": sum(1 for d in pipes if d["shape"].startswith("sib"))}
     for k in (len(pipes) // 3, 2 * len(pipes) // 3):
         d = pipes[k]
         ctx.sample({"shape": d["shape"], "validate": d["validate"], "expect": d["expect"],
